@@ -184,6 +184,8 @@ void tmcg_mpz_fpowm_precompute
 	(mpz_t fpowm_table[],
 	 mpz_srcptr m, mpz_srcptr p, const size_t t)
 {
+	if (!mpz_cmp_ui(p, 0UL))
+		throw std::invalid_argument("tmcg_mpz_fpowm_precompute: p is zero");
 	mpz_set(fpowm_table[0], m);
 	for (size_t i = 1; ((i < t) && (i < TMCG_MAX_FPOWM_T)); i++)
 	{
